@@ -6,6 +6,7 @@ links as a native executable. The parsing/printing glue here is outside the theo
 -/
 import Lean.Data.Json
 import AsphaltModel
+import DriverLib.Ctx
 
 open Lean Asphalt
 
@@ -148,6 +149,7 @@ def dispatch (j : Json) : Except String Json := do
   | "split" => runSplit j
   | "init" => runInit j
   | "publishName" => runPublishName j
+  | "ctx" => runCtx j
   | _ => throw s!"unknown kind {kind}"
 
 end Drv
